@@ -1,40 +1,40 @@
 ------------------------------ MODULE C10Cases ------------------------------
 (* Specification -> implementation: the bounded domain of field sequences, defined here and  *)
 (* emitted by TLC (one JSON line per sequence) as the case file the harness replays on the   *)
-(* real DataFieldSet.  One state = one field sequence with P's fold result.                  *)
+(* real DataFieldSet.  One state = one field sequence with P's fold result(s).               *)
 (* Domain = all P-specified sequences that fit a shape of C10Domain (per tier).              *)
-(* Every case carries P's ownership map; the lemmas about P are invariants of this machine.  *)
-EXTENDS C10Domain, Json
+(* Every case carries P's admissible ownership maps; the lemmas about P are invariants here. *)
+EXTENDS C10Domain, Json, SequencesExt
 
 VarN == 2                       \* bytes given to the variable-length field in the cases
 
-VARIABLES fs, run
-Init == fs = <<>> /\ run = PRun(<<>>, VarN)
+VARIABLES fs, runs              \* the sequence and its admissible runs (one, or more in the unspecified case)
+Init == fs = <<>> /\ runs = {Run0}
 
 Append1(ki, p) ==
-  LET k == Kinds[ki]
-      pl == PPlace(run.st[p], k, VarN)
-  IN /\ PSpecified(run.st[p], k)
-     /\ fs' = Append(fs, [k |-> ki, p |-> p])
-     /\ run' = [own |-> Append(run.own, [p |-> p, b |-> pl.b, n |-> pl.n, bits |-> pl.bits]),
-                st |-> [run.st EXCEPT ![p] = pl.st], ok |-> TRUE,
-                rsShare |-> run.rsShare \/ (run.st[p].rs /\ PShares(run.st[p], k))]
+  LET f == [k |-> ki, p |-> p] IN
+  /\ \A run \in runs : PSpecified(run.st[p], Kinds[ki])
+  /\ fs' = Append(fs, f)
+  /\ runs' = UNION {ExtendRun(run, f, VarN) : run \in runs}
 Next == \E ki \in 1..NK, p \in Parts : InShape(Append(fs, [k |-> ki, p |-> p])) /\ Append1(ki, p)
 
-PFixedOf(p) == IF run.st[p].closed THEN run.st[p].next - VarN ELSE run.st[p].next
+Triples(run) == [i \in 1..Len(run.own) |-> <<run.own[i].b, run.own[i].n, Mask(run.own[i].bits)>>]
+Alt(run) == [own |-> Triples(run),
+             len |-> <<PLength(run, "m"), PLength(run, "s")>>,
+             fix |-> <<PFixedOf(run, "m", VarN), PFixedOf(run, "s", VarN)>>]
 CaseRec ==
   [k |-> [i \in 1..Len(fs) |-> fs[i].k],
    t |-> [i \in 1..Len(fs) |-> Kinds[fs[i].k].t],
    p |-> [i \in 1..Len(fs) |-> fs[i].p],
-   len |-> <<PLength(run, "m"), PLength(run, "s")>>,
-   fix |-> <<PFixedOf("m"), PFixedOf("s")>>,
-   own |-> [i \in 1..Len(fs) |-> <<run.own[i].b, run.own[i].n, Mask(run.own[i].bits)>>],
-   rs |-> IF run.rsShare THEN 1 ELSE 0]
+   alts |-> SetToSeq({Alt(run) : run \in runs})]
 
 Emit == fs = <<>> \/ PrintT(ToJson(CaseRec))
-(* lemmas about P: disjoint ownership, no byte without owner, length = bytes spanned, full-byte *)
-(* fields directly behind their predecessor, the incremental fold equals the definition, and     *)
-(* (action property) appending a field never moves an earlier one                                *)
-Lemmas == PLemmas(fs, run) /\ run = PRun(fs, VarN) /\ \A p \in Parts : PFixedOf(p) = PFixed(fs, p)
-PrefixStable == [][\A i \in 1..Len(fs) : run'.own[i] = run.own[i] /\ fs'[i] = fs[i]]_<<fs, run>>
+(* lemmas about P, for every admissible map: disjoint ownership, no byte without owner, length = *)
+(* bytes spanned, full-byte fields directly behind the fields before them, the incremental fold  *)
+(* equals the definition, the choices differ in the map, and (action property) appending a field *)
+(* never moves an earlier one                                                                     *)
+Lemmas == /\ \A run \in runs : PLemmas(fs, run) /\ run.ok
+          /\ runs = PRuns(fs, VarN)
+          /\ Cardinality({run.own : run \in runs}) = Cardinality(runs)
+PrefixStable == [][\A r2 \in runs' : \E r1 \in runs : \A i \in 1..Len(fs) : r2.own[i] = r1.own[i] /\ fs'[i] = fs[i]]_<<fs, runs>>
 =============================================================================
